@@ -293,7 +293,7 @@ fn diff_row(
     }
     if want.checked && (asp.outputs || asp.virtual_only) {
         for (pos, (ui, _)) in want.expected.iter().enumerate() {
-            let is_virtual = *ui >= rf.n_cfg;
+            let is_virtual = *ui >= rf.n_cfg || rf.list_virtuals.contains(ui);
             if asp.virtual_only && !is_virtual {
                 continue;
             }
